@@ -457,7 +457,9 @@ def run(ck):
         if k in ("ok", "err"):
             if k == "ok":
                 d["value"] = o.get("ok")
-            if m["search"] == "cycle" and m["op"] in ("equal", "equal-self") and (k != "ok" or (o.get("ok") or [""])[-1] != "#t"):
+            # c1 and c2 are isomorphic (equal-self: identical); closures of different lambda expressions are never equal?
+            want_true = m["search"] == "cycle" and (m["op"] == "equal-self" or (m["op"] == "equal" and m["cycle"] != "closure-box"))
+            if want_true and (k != "ok" or (o.get("ok") or [""])[-1] != "#t"):
                 d["outcome"] = "wrong-answer"
                 fails.append(d)
                 continue
